@@ -60,6 +60,11 @@ def precedence(ctx, rule='P4'):
                         dead = [s_ for s_ in others if pf.blocks[s_]['term'] and pf.blocks[s_]['term']['k'] == 'unreachable']
                         return all(s_ in dead or q.arm_always_err(pf, s_) for s_ in others)
                     ok = len(ws) == 1 and all(only_error_exit(g) for g in q.guards(pf, ws[0][3][1]) if g[2] in reg)
+                    # .. and no way round it: a test written with `||` (seed C11-p: `frame_id == 0 || palette.is_none()`) leaves no single
+                    # dominating guard, so also require that every path from the arm's entry that leaves the arm without an error
+                    # passes through the assignment
+                    if ok:
+                        ok = not common.arm_bypass(pf, s, reg, ws[0][3][1])
                     val = ws[0][1] if ws else None
                     okv = val is not None and any(x[0] == 'call' and x[1] == PAL + 'parse_chunk' for x in walk(val))
                     # .. and the value is built from this chunk alone, not from the palette held so far
